@@ -11,7 +11,7 @@ META = {
     "stubs": ["all bidib_state_* setters, bidib_send_*, bidib_flush, bidib_node_update_stall -> recording stubs",
               "bidib_state_get_board_ref_by_nodeaddr -> arbitrary board or NULL"],
     "outside": ["messages shorter than the fixed layout of their type (C12)", "more than 2 adds beyond the bound",
-                "reader/receiver races: lock discipline only (C10)"],
+                "reader/receiver races: lock discipline only (each queue is touched only with ITS mutex held: container tags, also C10)"],
     "assumes": ["README.md 'Message handling' tables are the routing specification (parsed at run time)"],
 }
 SRCS = ["src/transmission/bidib_transmission_util.c", "src/transmission/bidib_transmission_message_string_mapping.c",
@@ -31,15 +31,15 @@ def queries():
         for fill, adds in ((126, 3), (127, 1), (127, 2), (128, 1), (128, 2)):
             quick = (errq == 0 and (fill, adds) in ((127, 2), (128, 1))) or (errq == 1 and (fill, adds) == (128, 2))
             qs.append(Q("queue-%s-fill%d-add%d" % ("err" if errq else "msg", fill, adds), "C06_queue.c", SRCS,
-                        defs={"FILL": fill, "ADDS": adds, "ERRQ": errq, "VERIF_QCAP": 131, "ENDS_ONLY": None, "READS": 1},
+                        defs={"FILL": fill, "ADDS": adds, "ERRQ": errq, "VERIF_QCAP": 131, "ENDS_ONLY": None, "READS": 1, "VERIF_LOCK_TAGS": None},
                         unwind=133, cbmc=["--object-bits", "12"], tier="quick" if quick else "thorough"))
         # same logic at a scaled bound: full content, full read-back
         for qsz in (2, 3, 4):
             for fill in range(0, qsz + 1):
                 for adds in (1, 2, 3):
-                    quick = errq == 0 and qsz == 3 and adds == 2
+                    quick = (errq == 0 and qsz == 3 and adds == 2) or (errq == 1 and qsz == 3 and adds == 2 and fill in (0, 3))
                     qs.append(Q("queue-%s-size%d-fill%d-add%d" % ("err" if errq else "msg", qsz, fill, adds), "C06_queue.c",
-                                SRCS, defs={"FILL": fill, "ADDS": adds, "ERRQ": errq, "VERIF_QCAP": qsz + 3, "READS": qsz + 2},
+                                SRCS, defs={"FILL": fill, "ADDS": adds, "ERRQ": errq, "VERIF_QCAP": qsz + 3, "READS": qsz + 2, "VERIF_LOCK_TAGS": None},
                                 unwind=20, leak=True, tier="quick" if quick else "thorough",
                                 scaled=[(RB, r"#define QUEUE_SIZE 128", "#define QUEUE_SIZE %d" % qsz)],
                                 note="queue bound scaled to %d" % qsz))
